@@ -541,6 +541,7 @@ class RunLengthArray(NPSIndexable, np.lib.mixins.NDArrayOperatorsMixin):
         start_idx = np.searchsorted(self._events, start, side="right")-1
         end_idx = np.searchsorted(self._events, end, side="left")
         if isinstance(start_idx, np.ndarray):
+            end_idx = np.where(end <= start, start_idx, end_idx)  # an empty window holds no run
             values = ragged_slice(self._values, start_idx, end_idx)
         else:
             values = self._values[start_idx:end_idx]
@@ -550,7 +551,7 @@ class RunLengthArray(NPSIndexable, np.lib.mixins.NDArrayOperatorsMixin):
         else:
             events = self._events[start_idx:end_idx+1]-sub
         events[..., 0] = 0
-        events[..., -1] = end-start
+        events[..., -1] = np.maximum(end-start, 0)
         return events, values
 
     def _getitem_bool(self, idx: 'RunLengthArray'):
